@@ -254,3 +254,79 @@ func TestC02_Proc(t *testing.T) {
 	r := ev.New(t, "C02", "TestC02_Proc")
 	ev.Run(t, r, genC02Proc, retryOnce(evalC02Proc))
 }
+
+
+// ----------------------------------------------------------------------------------
+// The network refuses a session. A conformant SMF may reject a PDU session (5GSM cause #26), and an AMF may return
+// the request unforwarded (5GMM cause #22 with a back-off timer). Whatever the emulator then does — it may stop —
+// it must not go on to request service or a release for the UE that has no session, and it must not put the same
+// protected NAS message (the same NAS COUNT) on the wire twice. Exit status and completeness of the run are not
+// judged here; only what the AMF sees.
+
+func genC02Refusal(t *rapid.T) *peCase {
+	r := rapid.IntRange(1, 3).Draw(t, "R")
+	cfg := genConfig(t, cfgOpts{maxUEs: r + 1, suffixBias: true})
+	cfg.Reg, cfg.Pdu = int64(r), int64(r)
+	cfg.Service = int64(rapid.IntRange(0, r).Draw(t, "S"))
+	cfg.Release = int64(rapid.IntRange(0, r).Draw(t, "L"))
+	cfg.Dereg = int64(rapid.IntRange(0, r).Draw(t, "D"))
+	if rapid.Bool().Draw(t, "all") {
+		cfg.Service, cfg.Release, cfg.Dereg = int64(r), int64(r), int64(r)
+	}
+	c := &peCase{Level: "main", Cfg: cfg}
+	c.Sc = genScenario(t, cfg, r, refamf.Policy{DistinctSUPI: true})
+	victim := rapid.IntRange(0, r-1).Draw(t, "refused_ue")
+	c.Sc.UEs[victim].Refuse = rapid.SampledFrom([]string{"reject", "congestion"}).Draw(t, "refusal")
+	return c
+}
+
+func evalC02Refusal(c *peCase) evalResult {
+	sp, err := c.spawnFor("TestC02_Refusal")
+	if err != nil {
+		return evalResult{V: ev.Verdict{Err: err, Key: "harness"}}
+	}
+	defer removeAll(sp.Dir)
+	k := c.Cfg.clamps()
+	res := converse(sp, c.Sc, bound(k.sleepBudget()))
+	v := ev.Verdict{Hash: c.hash(), NT: true, Classes: append(configClasses(c.Cfg), "level:main")}
+	for i, u := range c.Sc.UEs {
+		if u.Refuse != "" {
+			v.Classes = append(v.Classes, "refusal:"+u.Refuse, fmt.Sprintf("refused-ue=%d-of-%d", i, len(c.Sc.UEs)))
+		}
+	}
+	if res.StartErr != nil {
+		return evalResult{V: ev.Verdict{Err: fmt.Errorf("harness: %v", res.StartErr), Key: "harness"}}
+	}
+	a := res.AMF
+	if a.Violation != nil {
+		c.attach(res)
+		v.Err, v.Key = fmt.Errorf("reference AMF: %s\n%s", a.Violation.Msg, describe(res)), a.Violation.Key
+		return evalResult{V: v}
+	}
+	if cv := a.CountReuse(); cv != nil {
+		c.attach(res)
+		v.Err, v.Key = cv, cv.Key
+		return evalResult{V: v}
+	}
+	if res.TimedOut {
+		c.attach(res)
+		v.Err, v.Key = fmt.Errorf("the emulator neither finished nor stopped within %v after the network refused a session\n%s", res.Elapsed, describe(res)), "stall"
+		return evalResult{V: v, Retry: true}
+	}
+	v.Classes = append(v.Classes, fmt.Sprintf("after-refusal:exit=%d", res.ExitCode))
+	return evalResult{V: v}
+}
+
+func TestC02_Refusal(t *testing.T) {
+	haveBins(t, "stgutg_verif")
+	r := ev.New(t, "C02", "TestC02_Refusal")
+	n := ev.N(24, 1200)
+	gen := rapid.Custom(genC02Refusal)
+	var cases []*peCase
+	if ev.Replay() == "" {
+		for k := 0; k < n; k++ {
+			cases = append(cases, gen.Example(int(ev.Seed())+k*49979687))
+		}
+	}
+	runParallel(t, r, cases, evalC02Refusal)
+}
